@@ -825,6 +825,11 @@ func (f *Frame) instr(ins ssa.Instruction) {
 		if addr.Loc == nil {
 			f.safety("nil", not(eq(addr.T, "0")), "nil dereference", i.Pos())
 		}
+		if v.Fn != nil && len(v.Free) == 0 {
+			// a plain function (no captured variables) stored in a variable: its identity is a number; a later call
+			// through the loaded value is a dynamic call (havoc or `:dyn` contract), which is sound
+			v = term(fmt.Sprint(e.fnTag(v.Fn)), sInt, v.Type)
+		}
 		if v.Loc != nil || v.Fn != nil {
 			e.fail("%s: storing a static pointer/function value into the heap is outside the subset (%s)", f.fn.Name(), i)
 		}
